@@ -36,6 +36,13 @@ package main
 // answered PERMISSION_DENIED and the tree ends exactly as it began (os/readonly-not-denied/<kind>,
 // os/readonly-tree-changed); non-default start / working directories with relative session paths;
 // handlers and handler objects without their optional interfaces.
+// STAGED PIPELINES (c07PipeSessions, ssMut.Stage / Hold / Stall): sessions whose middle is a deep pipeline of
+// READs and WRITEs on LIVE handles (deeper than the servers have workers).  The opens are sent one at a time,
+// everything behind them — the pipeline, the malformed packet, the rest of the session — in one write, so that
+// the malformed packet arrives while the requests in front of it are still queued or running; also with the
+// handler objects held and / or the server's output left unread until the server has hung up.  Same oracles:
+// the process survives, Serve returns, the replies that were sent are a prefix of the reference run's, and the
+// files / handler calls are those of ALL the requests in front of the malformed packet and of nothing else.
 
 import (
 	"encoding/hex"
@@ -46,6 +53,8 @@ import (
 	"runtime"
 	"strings"
 	"time"
+
+	"github.com/pkg/sftp"
 
 	"verifharness/lib"
 	"verifharness/wire"
@@ -58,6 +67,91 @@ type c07Session struct {
 	prog []ssStep
 	pipe bool // path-only: also mutated in pipelined mode
 	idx  int
+	// staged pipeline (c07PipeSessions): steps [stage, stage+burst) are the pipelined READs / WRITEs on the handles
+	// the steps before stage opened; the closes follow
+	stage, burst int
+}
+
+// c07PipeSessions: sessions whose middle is a pipeline of n requests on live handles.  Within a pipeline no two
+// requests touch the same bytes unless both only read them (what a READ returns and what the files hold at the
+// end must not depend on the schedule): READs go to files / regions the pipeline does not write, WRITEs to
+// disjoint slots.
+//
+//	pipe-reads      READs of one read handle: PRNG offsets up to beyond the end of the file, lengths 1 … 65536
+//	pipe-writes     WRITEs through one write handle
+//	pipe-mixed      read, write and read-write handle (the latter written before the pipeline): READs, WRITEs,
+//	                and the path / handle requests that run on the servers' one sequential worker (STAT, FSTAT,
+//	                REALPATH) in PRNG order
+//	pipe-big-reads  a 128 KiB file made by one WRITE far behind offset 0; READs of 32768 bytes at PRNG multiples of 4096
+func c07PipeSessions(rnd *rand.Rand, n int) []c07Session {
+	rdLens := []uint32{1, 17, 512, 4096, 5000, 32768, 65536}
+	var out []c07Session
+	closeAll := func(p []ssStep, hs ...int) []ssStep {
+		for _, h := range hs {
+			p = append(p, ssStep{Op: "close", H: h})
+		}
+		return p
+	}
+	{
+		p := []ssStep{{Op: "init"}, {Op: "open", P1: "b.bin", Pf: wire.FRead}}
+		for i := 0; i < n; i++ {
+			p = append(p, ssStep{Op: "read", H: 1, Off: uint64(rnd.Intn(4300)), Len: rdLens[rnd.Intn(len(rdLens))]})
+		}
+		out = append(out, c07Session{name: "pipe-reads", prog: closeAll(p, 1), stage: 2, burst: n})
+	}
+	{
+		p := []ssStep{{Op: "init"}, {Op: "open", P1: "n1", Pf: wire.FWrite | wire.FCreat | wire.FTrunc}}
+		for i := 0; i < n; i++ {
+			p = append(p, ssStep{Op: "write", H: 1, Off: uint64(i * 64), Len: uint32(1 + rnd.Intn(64))})
+		}
+		out = append(out, c07Session{name: "pipe-writes", prog: closeAll(p, 1), stage: 2, burst: n})
+	}
+	{
+		p := []ssStep{{Op: "init"}, {Op: "open", P1: "b.bin", Pf: wire.FRead}, {Op: "open", P1: "n1", Pf: wire.FWrite | wire.FCreat | wire.FTrunc},
+			{Op: "open", P1: "n2", Pf: wire.FRead | wire.FWrite | wire.FCreat}, {Op: "write", H: 3, Off: 0, Len: 300}}
+		for i := 0; i < n; i++ {
+			var st ssStep
+			switch x := rnd.Intn(16); {
+			case x < 5:
+				st = ssStep{Op: "read", H: 1, Off: uint64(rnd.Intn(4300)), Len: rdLens[rnd.Intn(len(rdLens))]}
+			case x < 8:
+				st = ssStep{Op: "write", H: 2, Off: uint64(i * 64), Len: uint32(1 + rnd.Intn(64))}
+			case x < 10:
+				st = ssStep{Op: "read", H: 3, Off: uint64(rnd.Intn(200)), Len: uint32(1 + rnd.Intn(100))} // inside the part written before the pipeline
+			case x < 13:
+				st = ssStep{Op: "write", H: 3, Off: uint64(1000 + i*64), Len: uint32(1 + rnd.Intn(64))} // behind what the READs look at
+			case x < 14:
+				st = ssStep{Op: "stat", P1: "a.txt"}
+			case x < 15:
+				st = ssStep{Op: "fstat", H: 1}
+			default:
+				st = ssStep{Op: "realpath", P1: "d/../e"}
+			}
+			p = append(p, st)
+		}
+		out = append(out, c07Session{name: "pipe-mixed", prog: closeAll(p, 3, 2, 1), stage: 5, burst: n})
+	}
+	{
+		p := []ssStep{{Op: "init"}, {Op: "open", P1: "n1", Pf: wire.FRead | wire.FWrite | wire.FCreat}, {Op: "write", H: 1, Off: 1 << 17, Len: 64}}
+		for i := 0; i < n; i++ {
+			p = append(p, ssStep{Op: "read", H: 1, Off: uint64(rnd.Intn(1<<17/4096+1)) * 4096, Len: 32768})
+		}
+		out = append(out, c07Session{name: "pipe-big-reads", prog: closeAll(p, 1), stage: 3, burst: n})
+	}
+	return out
+}
+
+// c07PipeModes: how the pipelined part meets the server — as fast as the server takes it; with the peer not
+// reading replies meanwhile; request server: with the handler objects held; thorough: both.
+func c07PipeModes(kind string, thorough bool) []ssMut {
+	m := []ssMut{{}, {Stall: true}}
+	if kind == "rs" {
+		m = append(m, ssMut{Hold: true})
+		if thorough {
+			m = append(m, ssMut{Hold: true, Stall: true})
+		}
+	}
+	return m
 }
 
 func ssBaseRnd() func() uint32 {
@@ -218,7 +312,7 @@ func checkC07(c *lib.Ctx) {
 	r := c.R
 	thorough := c.Tier == "thorough"
 	ssThoroughRun = thorough || c.Replay != ""
-	r.Rule = "sessions: INIT + PRNG mix of 24 request kinds (OPEN r/w/rw, READ, WRITE, FSTAT, FSETSTAT, CLOSE, OPENDIR, READDIR, STAT, LSTAT, MKDIR, RMDIR, REMOVE, RENAME, SYMLINK, READLINK, REALPATH, SETSTAT, statvfs/posix-rename/hardlink/unknown extended), incl. failing opens, never-issued handles and (one flavour) handles of the wrong kind; recorded interactively against os-backed Server (absolute paths / working directory + relative paths) and RequestServer with counting in-memory handlers, allocator on and off; option dimensions — os-backed: ReadOnly() (every modifying request, also one made by a mutation, must be refused with PERMISSION_DENIED and the tree stay as it was) x WithDebug x {absolute, working directory, working directory <tree>/home/u + relative paths} x allocator; request server: {default, WithStartDirectory(\"/\") + relative, WithStartDirectory(\"/home/u\") + absolute, + relative paths} x allocator x {all optional interfaces, handler objects without Close / TransferError, handlers without OpenFileWriter / LstatFileLister / PosixRenameFileCmder / StatVFSFileCmder, neither}; quick: four members of that product (rotating with the seed) on the field session and every third generated session, thorough: the whole product (24 os + 32 rs members) on rotating shares of the sessions, mutated with the sampled density; ReadOnly() configurations also record a \"read-only\" session (every modifying request kind, OPEN with the combinations of write / create / truncate / append / excl / read) and get ALL boundary values for every OPEN's pflags; reference runs of one session on configurations that differ only in path style / start directory / allocator / debug writer are compared reply by reply (type and status code). Mutations of the recorded stream, one per case: cut at byte k then EOF (quick: every frame boundary, boundary+-1 and PRNG offsets; thorough: every k), every frame's length field := 0,1,n-1,n+1,2^31-1,2^32-1, every frame's type byte := sample incl. 0,2,21,99,101-105,199,201,255 and other valid types (thorough: all 0..255), every string-length field (the data length of a WRITE included) := 0,n-1,n+1,n+1000,2^32-1 and, for the last string of a frame (thorough: every string), n/2 — the bytes left where they are —, every frame's length field also := n+(length of the next packet) so that the frame swallows the whole next packet (thorough: also n+4 and the next two packets), 1 and 5 (thorough: 1,3,4,5,8,64,4096) bytes appended INSIDE every frame, whole-field mutations (every integer field the judge finds in a request: frame length, id, version, string lengths, READ/WRITE offset and length, pflags, attribute flags, size, uid, gid, permissions, times, extended count := 0,1,2^31-1,2^31,2^32-16..2^32-1 and for 64-bit fields also 2^32,2^63-1,2^63,2^64-16..2^64-1; string lengths 0/1 also with the string cut to fit and attribute flags also with the block zero-padded to fit, so that the request is dispatched with the extreme value; quick: PRNG choice of 1 value per field (3 in the dedicated session that exercises read/write/read-write/directory handles and full attribute blocks), but ALL values for the offsets and lengths of that session's READs and WRITEs; thorough: all values), garbage appended, the same garbage packets (zero / huge / cut length words, unknown type, RMDIR and EXTENDED with only an id, STAT whose string outruns its frame, PRNG bytes) inserted INSIDE the session in front of a PRNG-chosen frame (quick: 1 position per packet, thorough: 3) so that the rest of the valid session follows the malformed packet, crafted raw frames (F3/short-attribute witnesses), and the same for path-only sessions sent pipelined. TRANSPORT dimension, for both servers: every case runs either on one connection object whose Close ends both directions (net.Pipe-like) or on two independent pipes (struct{io.Reader; io.WriteCloser}, stdin/stdout-like: the server's Close ends its output only, its input stays readable) — PRNG, one half each; every pipelined case additionally with a bytes.Reader over the WHOLE mutated stream as input and a separate sink as output. On every transport the state oracle is the same: the served tree / handler call log after Serve returned equal the reference run cut just before the malformed packet, whatever well-formed requests the stream still holds behind it (histogram behind-the-malformed-packet/<transport>/<end class>/…); when they differ, the stream cut right behind the malformed packet is run too, to tell a malformed packet that was acted upon from a server that kept executing what followed it (<kind>/requests-behind-malformed-executed/<end class>). EFFECT oracles besides the reply oracles: around every WRITE, SETSTAT and FSETSTAT of every run (reference runs too) the file behind the handle / at the path is looked at before and after (os-backed: an OK'd WRITE leaves the old content with exactly `length` bytes — the bytes of the data string — at `offset`; an OK'd SETSTAT / FSETSTAT changed exactly the attributes its flags select, to the block's values) resp. the arguments the handler object / the Setstat handler recorded are compared with the request's fields (request server); and whenever a dispatched frame carries bytes after the last field of its request, the whole stream is run a second time with every request re-encoded without such bytes: same replies, same final tree / handler log. Each case runs on a fresh server in a child process; a case is non-trivial when the stream differs from the reference stream; distinct by (server config, session, mutation)"
+	r.Rule = "sessions: INIT + PRNG mix of 24 request kinds (OPEN r/w/rw, READ, WRITE, FSTAT, FSETSTAT, CLOSE, OPENDIR, READDIR, STAT, LSTAT, MKDIR, RMDIR, REMOVE, RENAME, SYMLINK, READLINK, REALPATH, SETSTAT, statvfs/posix-rename/hardlink/unknown extended), incl. failing opens, never-issued handles and (one flavour) handles of the wrong kind; recorded interactively against os-backed Server (absolute paths / working directory + relative paths) and RequestServer with counting in-memory handlers, allocator on and off; option dimensions — os-backed: ReadOnly() (every modifying request, also one made by a mutation, must be refused with PERMISSION_DENIED and the tree stay as it was) x WithDebug x {absolute, working directory, working directory <tree>/home/u + relative paths} x allocator; request server: {default, WithStartDirectory(\"/\") + relative, WithStartDirectory(\"/home/u\") + absolute, + relative paths} x allocator x {all optional interfaces, handler objects without Close / TransferError, handlers without OpenFileWriter / LstatFileLister / PosixRenameFileCmder / StatVFSFileCmder, neither}; quick: four members of that product (rotating with the seed) on the field session and every third generated session, thorough: the whole product (24 os + 32 rs members) on rotating shares of the sessions, mutated with the sampled density; ReadOnly() configurations also record a \"read-only\" session (every modifying request kind, OPEN with the combinations of write / create / truncate / append / excl / read) and get ALL boundary values for every OPEN's pflags; reference runs of one session on configurations that differ only in path style / start directory / allocator / debug writer are compared reply by reply (type and status code). Mutations of the recorded stream, one per case: cut at byte k then EOF (quick: every frame boundary, boundary+-1 and PRNG offsets; thorough: every k), every frame's length field := 0,1,n-1,n+1,2^31-1,2^32-1, every frame's type byte := sample incl. 0,2,21,99,101-105,199,201,255 and other valid types (thorough: all 0..255), every string-length field (the data length of a WRITE included) := 0,n-1,n+1,n+1000,2^32-1 and, for the last string of a frame (thorough: every string), n/2 — the bytes left where they are —, every frame's length field also := n+(length of the next packet) so that the frame swallows the whole next packet (thorough: also n+4 and the next two packets), 1 and 5 (thorough: 1,3,4,5,8,64,4096) bytes appended INSIDE every frame, whole-field mutations (every integer field the judge finds in a request: frame length, id, version, string lengths, READ/WRITE offset and length, pflags, attribute flags, size, uid, gid, permissions, times, extended count := 0,1,2^31-1,2^31,2^32-16..2^32-1 and for 64-bit fields also 2^32,2^63-1,2^63,2^64-16..2^64-1; string lengths 0/1 also with the string cut to fit and attribute flags also with the block zero-padded to fit, so that the request is dispatched with the extreme value; quick: PRNG choice of 1 value per field (3 in the dedicated session that exercises read/write/read-write/directory handles and full attribute blocks), but ALL values for the offsets and lengths of that session's READs and WRITEs; thorough: all values), garbage appended, the same garbage packets (zero / huge / cut length words, unknown type, RMDIR and EXTENDED with only an id, STAT whose string outruns its frame, PRNG bytes) inserted INSIDE the session in front of a PRNG-chosen frame (quick: 1 position per packet, thorough: 3) so that the rest of the valid session follows the malformed packet, crafted raw frames (F3/short-attribute witnesses), and the same for path-only sessions sent pipelined. TRANSPORT dimension, for both servers: every case runs either on one connection object whose Close ends both directions (net.Pipe-like) or on two independent pipes (struct{io.Reader; io.WriteCloser}, stdin/stdout-like: the server's Close ends its output only, its input stays readable) — PRNG, one half each; every pipelined case additionally with a bytes.Reader over the WHOLE mutated stream as input and a separate sink as output. On every transport the state oracle is the same: the served tree / handler call log after Serve returned equal the reference run cut just before the malformed packet, whatever well-formed requests the stream still holds behind it (histogram behind-the-malformed-packet/<transport>/<end class>/…); when they differ, the stream cut right behind the malformed packet is run too, to tell a malformed packet that was acted upon from a server that kept executing what followed it (<kind>/requests-behind-malformed-executed/<end class>). STAGED PIPELINES on live handles, both servers, allocator on and off (thorough: also with a working / start directory and handler objects without Close / TransferError): four sessions whose middle is a pipeline of 3W+2 (thorough 6W; W = sftp.SftpServerWorkerCount) requests — READs of one read handle with PRNG offsets up to beyond the end of the file and lengths 1 … 65536; WRITEs to disjoint slots through one write handle; a PRNG mix of READs, WRITEs (read, write and read-write handle) and STAT / FSTAT / REALPATH; READs of 32768 bytes out of a 128 KiB file the session made itself. The opens (and the WRITE that fills what is read later) are sent one at a time, everything from the first pipelined request on goes out in ONE write: the unmutated session, a malformed packet (PRNG choice of the garbage packets above) inserted behind k pipelined requests — k = 1, W-1, W, W+1, 2W, 2W+1, 3W+1, the whole pipeline, the whole session; thorough: every k — with the rest of the session behind it, and pipelined requests themselves mutated (length word 0 / 2^32-1 / n-1, type 99, the stream cut at 0, 1, all-but-one bytes of the frame); each of them as fast as the server reads, with the peer not reading the server's output from the write on until the server has read the malformed packet (resp. taken the whole write; k <= 2W+2), and — request server — with ReadAt / WriteAt of the handler objects held until the server has hung up (k <= 3W+1; thorough: also both); transport one connection object / two independent pipes (held cases: both; else PRNG, thorough both). Oracles as everywhere: the process survives (a dead child is a failure with the panic text), Serve returns, the replies that were sent are, in order, those of the reference run to the requests in front of the malformed packet (any prefix), and the served files / the handler calls (READ / WRITE handler calls compared as a multiset: their order in a pipeline is the schedule's) are those of ALL the requests in front of the malformed packet and of nothing behind it (histograms pipeline/…: mode, how many requests the malformed packet was behind, how many pipelined requests were still unanswered when the output ended). EFFECT oracles besides the reply oracles: around every WRITE, SETSTAT and FSETSTAT of every run (reference runs too) the file behind the handle / at the path is looked at before and after (os-backed: an OK'd WRITE leaves the old content with exactly `length` bytes — the bytes of the data string — at `offset`; an OK'd SETSTAT / FSETSTAT changed exactly the attributes its flags select, to the block's values) resp. the arguments the handler object / the Setstat handler recorded are compared with the request's fields (request server); and whenever a dispatched frame carries bytes after the last field of its request, the whole stream is run a second time with every request re-encoded without such bytes: same replies, same final tree / handler log. Each case runs on a fresh server in a child process; a case is non-trivial when the stream differs from the reference stream; distinct by (server config, session, mutation)"
 	base, err := ssMkBase(ssBaseRnd())
 	if err != nil {
 		r.Fail(lib.Failure{Kind: "tie", Key: "tmpdir", What: err.Error()})
@@ -256,6 +350,12 @@ func checkC07(c *lib.Ctx) {
 		}
 		col := &ssCollector{r: r, base: base, jobs: []*ssPJob{j}}
 		res := ssRunAlone(base, j)
+		// a staged pipeline meets the server's workers as the scheduler lets it (unless the handlers are held): a
+		// replay that shows nothing is repeated a few times
+		for x := 0; x < 7 && j.Mut != nil && j.Mut.Stage > 0 && !res.Crash && !res.Timeout && len(res.Findings) == 0 && !c.Expired(); x++ {
+			r.Hist("replay/staged-pipeline-repeated")
+			res = ssRunAlone(base, j)
+		}
 		res.Prev = -1
 		r.Case(fmt.Sprint(j.input()), true)
 		col.done(0, j, &res)
@@ -362,6 +462,25 @@ func checkC07(c *lib.Ctx) {
 		}
 	}
 	optRefs = false
+	// staged pipelines: both servers, allocator on and off
+	W := sftp.SftpServerWorkerCount
+	nPipe := 3*W + 2
+	if thorough {
+		nPipe = 6 * W
+	}
+	pipeCfgs := []ssCfg{{Kind: "os"}, {Kind: "os", Alloc: true}, {Kind: "rs"}, {Kind: "rs", Alloc: true}}
+	if thorough {
+		pipeCfgs = append(pipeCfgs, ssCfg{Kind: "os", Alloc: true, WorkDir: true}, ssCfg{Kind: "rs", Alloc: true, WorkDir: true},
+			ssCfg{Kind: "rs", Alloc: true, Without: "closer,terr"})
+	}
+	for _, ps := range c07PipeSessions(c.Rand, nPipe) {
+		for _, st := range ps.prog {
+			r.Hist("op/" + st.Op)
+		}
+		for _, cfg := range pipeCfgs {
+			addRef(cfg, ps)
+		}
+	}
 	// special sessions
 	bigRead := c07Session{name: "read-300000", prog: []ssStep{{Op: "init"}, {Op: "open", P1: "b.bin", Pf: wire.FRead}, {Op: "read", H: 1, Len: 300000}, {Op: "close", H: 1}}}
 	for _, cfg := range []ssCfg{{Kind: "os", MaxTx: 1 << 19}, {Kind: "rs", MaxTx: 1 << 19}, {Kind: "os", Alloc: true, MaxTx: 1 << 19}, {Kind: "rs", Alloc: true, MaxTx: 1 << 19}} {
@@ -469,6 +588,116 @@ func checkC07(c *lib.Ctx) {
 			continue
 		}
 		if ri.sess.name == "read-300000" {
+			continue
+		}
+		if ri.sess.stage > 0 {
+			// a staged pipeline: the malformed packet arrives behind k pipelined requests that are still queued or
+			// running — k around the multiples of the worker count, the whole pipeline, the whole session —, the
+			// rest of the session behind it; every way of meeting the server (c07PipeModes); transport and packet PRNG
+			st, nb := ri.sess.stage, ri.sess.burst
+			// the packet: one time in four a bad length word, else one the receiver has to read as a whole first
+			// (unknown type, a body that does not decode) or a fragment that swallows what follows it
+			var gLen, gOther []string
+			for _, h := range garbage() {
+				// (judged with a request behind it, as in the stream)
+				if b, _ := hex.DecodeString(h); ssJudge(append(b, wire.Req(wire.Read, 1, wire.B{}.Str("1").U64(0).U32(1))...)).End == "badlen" {
+					gLen = append(gLen, h)
+				} else {
+					gOther = append(gOther, h)
+				}
+			}
+			pick := func() string {
+				if c.Rand.Intn(4) == 0 {
+					return gLen[c.Rand.Intn(len(gLen))]
+				}
+				return gOther[c.Rand.Intn(len(gOther))]
+			}
+			var ks []int
+			if thorough {
+				for k := 1; k <= nb; k++ {
+					ks = append(ks, k)
+				}
+			} else {
+				for _, k := range []int{1, W - 1, W, W + 1, 2 * W, 2*W + 1, 3*W + 1, nb} {
+					if k >= 1 && k <= nb && (len(ks) == 0 || ks[len(ks)-1] < k) {
+						ks = append(ks, k)
+					}
+				}
+			}
+			frames := make([]int, 0, len(ks)+1)
+			for _, k := range ks {
+				frames = append(frames, st+k)
+			}
+			frames = append(frames, len(L)) // behind the closes
+			modes := c07PipeModes(ri.job.Cfg.Kind, thorough)
+			trs := []string{"conn", "split"}
+			pm := func(m ssMut, mode ssMut, tr string) {
+				m.Pipe, m.Stage, m.Hold, m.Stall = true, st, mode.Hold, mode.Stall
+				if m.Tr = tr; tr == "conn" {
+					m.Tr = ""
+				}
+				jobs = append(jobs, &ssPJob{Kind: "c07", Cfg: ri.job.Cfg, Prog: ri.job.Prog, PID: ri.job.PID, Mut: &m})
+			}
+			// held handlers / unread replies only as deep as a server takes requests in while nothing gets done
+			// (a deeper pipeline waits for the release bound and is then served like an unheld one)
+			reach := func(mode ssMut, k int) bool {
+				switch {
+				case mode.Stall:
+					return k <= 2*W+2
+				case mode.Hold:
+					return k <= 3*W+1
+				}
+				return true
+			}
+			for _, mode := range modes {
+				held := mode.Hold || mode.Stall
+				for _, tr := range trs {
+					if !held && (thorough || c.Rand.Intn(2) == 0) {
+						pm(ssMut{Kind: "none"}, mode, tr)
+					}
+				}
+				for _, f := range frames {
+					if !reach(mode, f-st) {
+						continue
+					}
+					nHex := 1
+					if thorough {
+						nHex = 2
+					}
+					for x := 0; x < nHex; x++ {
+						for _, tr := range trs {
+							if held || thorough || c.Rand.Intn(2) == 0 {
+								pm(ssMut{Kind: "raw", Frame: f, Hex: pick()}, mode, tr)
+							}
+						}
+					}
+				}
+			}
+			// … and a pipelined request itself made malformed / the stream ended inside it
+			nIn := 3
+			if thorough {
+				nIn = nb
+			}
+			for x := 0; x < nIn; x++ {
+				f := st + c.Rand.Intn(nb)
+				if thorough {
+					f = st + x
+				}
+				body := uint32(L[f] - 4)
+				in := []ssMut{{Kind: "len", Frame: f, Val: 0}, {Kind: "len", Frame: f, Val: 1<<32 - 1}, {Kind: "len", Frame: f, Val: body - 1},
+					{Kind: "type", Frame: f, Val: 99}, {Kind: "cut", Frame: f, Off: 0}, {Kind: "cut", Frame: f, Off: 1}, {Kind: "cut", Frame: f, Off: L[f] - 1}}
+				if !thorough {
+					c.Rand.Shuffle(len(in), func(a, b int) { in[a], in[b] = in[b], in[a] })
+					in = in[:2]
+				}
+				for _, m := range in {
+					mode := modes[c.Rand.Intn(len(modes))]
+					if !reach(mode, f-st) {
+						mode = ssMut{}
+					}
+					pm(m, mode, trs[c.Rand.Intn(2)])
+				}
+			}
 			continue
 		}
 		thorough := thorough && !ri.opt // option-product members: sampled density in both tiers
@@ -677,6 +906,26 @@ func checkC07(c *lib.Ctx) {
 		}
 		if mk == "raw" && j.Mut.Frame < len(j.Prog) {
 			mk += "+inside-session"
+		}
+		if j.Mut.Stage > 0 {
+			mk += "+staged-pipeline"
+			mode := "as-fast-as-the-server-reads"
+			switch {
+			case j.Mut.Hold && j.Mut.Stall:
+				mode = "handlers-held+replies-unread"
+			case j.Mut.Hold:
+				mode = "handlers-held"
+			case j.Mut.Stall:
+				mode = "replies-unread"
+			}
+			r.Hist("pipeline/mode/" + mode)
+			if j.Mut.Kind != "none" {
+				if k := j.Mut.Frame - j.Mut.Stage; j.Mut.Frame >= len(j.Prog) {
+					r.Hist("pipeline/malformed-behind/the-whole-session")
+				} else {
+					r.Hist(fmt.Sprintf("pipeline/malformed-behind/%d-pipelined-requests(bucket)", ssBucket(k)))
+				}
+			}
 		}
 		if mk == "field" {
 			r.Hist("field/" + j.Mut.Name)
